@@ -186,10 +186,13 @@ func devHarness(args []string) {
 	}
 	fmt.Printf("loaded in %.1fs; harness functions: %d\n", time.Since(t0).Seconds(), len(l.fnNames))
 	cfg := mkConfig(l, h, t, false)
+	if n, err := strconv.Atoi(os.Getenv("SYMGO_SAMPLE")); err == nil && n > 0 {
+		cfg.SampleEvery = n
+	}
 	t1 := time.Now()
 	st := interp.Explore(cfg)
 	printStats(h.Fn, st, time.Since(t1))
-	if os.Getenv("SYMGO_NOREPLAY") == "" && len(st.Viol) > 0 {
+	if os.Getenv("SYMGO_NOREPLAY") == "" && (len(st.Viol) > 0 || os.Getenv("SYMGO_SAMPLE") != "") {
 		rb, err := buildReplay(l)
 		if err != nil {
 			fmt.Println("replay build failed:", err)
@@ -206,6 +209,9 @@ func devHarness(args []string) {
 			}
 			res := rb.run(h.Fn, s.Model, 60*time.Second)
 			fmt.Printf("  conformance sample path %d: %s\n", s.Path, res.summary())
+			if os.Getenv("SYMGO_SAMPLE") != "" {
+				fmt.Printf("    engine observed: %q\n    native observed: %q\n", s.Out, strings.Join(res.Observed, "\n"))
+			}
 		}
 	}
 }
